@@ -78,6 +78,7 @@ pub fn run_case(f: &[&str]) -> String {
     let mut done_flags: Vec<char> = Vec::new();
     let mut max_timed: u64 = 0;
     let mut ncalls = 0usize;
+    let mut ncalls_inline = 0usize;
     for (i, op) in ops.iter().enumerate() {
         let mut is_call = false;
         if let Some(v) = op.strip_prefix('p') {
@@ -93,6 +94,14 @@ pub fn run_case(f: &[&str]) -> String {
             }
         } else if let Some(ms) = op.strip_prefix('z') {
             std::thread::sleep(Duration::from_millis(ms.parse().unwrap()));
+        } else if let Some(rest) = op.strip_prefix('R') {
+            // a non-blocking receive performed by the releasing thread itself, right now
+            let _t: usize = rest.splitn(2, '.').next().unwrap().parse().unwrap();
+            let s = Instant::now();
+            let r = q.try_pop();
+            results.lock().unwrap().push((i, r, s.elapsed().as_micros()));
+            op_done[i].store(1, Ordering::SeqCst);
+            ncalls_inline += 1;
         } else if let Some(rest) = op.strip_prefix('r') {
             let mut it = rest.splitn(2, '.');
             let t: usize = it.next().unwrap().parse().unwrap();
@@ -166,6 +175,7 @@ pub fn run_case(f: &[&str]) -> String {
             let _ = h.join();
         }
     }
+    let _ = ncalls_inline;
     format!(
         "done={} res={} blocked={} q={}",
         done_flags.iter().collect::<String>(),
